@@ -336,11 +336,11 @@ def _magnitude_ok(v):
 # generator
 # ---------------------------------------------------------------------------
 
-FAMILIES_ALL = ['un', 'un', 'special', 'unp', 'bin', 'bin', 'binc', 'binc', 'pow', 'neg', 'get', 'get', 'T', 'reshape',
+FAMILIES_ALL = ['un', 'un', 'special', 'unp', 'bin', 'bin', 'bcast', 'binc', 'binc', 'pow', 'neg', 'get', 'get', 'T', 'reshape',
                 'buf', 'set', 'set', 'rmw', 'rmw', 'sum', 'prod', 'trace', 'dot', 'dot', 'dotc', 'outer', 'inv', 'solve', 'det',
                 'logdet', 'qr', 'chol', 'eigh', 'svd', 'lu', 'fft', 'tile', 'diag', 'symvec']
 FAMILIES_FWD_ONLY = ['unfwd', 'minmax', 'tri', 'abs', 'expm', 'svdfull']
-FAMILIES_POLY = ['un', 'bin', 'bin', 'binc', 'binc', 'pow', 'neg', 'get', 'get', 'T', 'reshape', 'buf', 'set', 'rmw', 'sum', 'prod',
+FAMILIES_POLY = ['un', 'bin', 'bin', 'bcast', 'binc', 'binc', 'pow', 'neg', 'get', 'get', 'T', 'reshape', 'buf', 'set', 'rmw', 'sum', 'prod',
                  'trace', 'dot', 'dot', 'dotc', 'outer', 'tile', 'diag']
 
 
@@ -422,11 +422,11 @@ class GenState:
 def consts(draw, shape=None, kinds=('float', 'int', 'npfloat', 'nd')):
     """a constant operand: python float / int, numpy scalar or ndarray broadcastable to ``shape``"""
     kind = draw(st.sampled_from(list(kinds)))
-    val = draw(st.sampled_from([2.0, -0.5, 3.0, 0.25, -1.5, 1.0]))
+    val = draw(st.sampled_from([2.0, -0.5, 3.0, 0.25, -1.5, 1.0, 0.0]))
     if kind == 'float':
         return val
     if kind == 'int':
-        return draw(st.sampled_from([2, 3, -1, -2]))
+        return draw(st.sampled_from([2, 3, -1, -2, 0, 1]))
     if kind == 'npfloat':
         return np.float64(val)
     shape = tuple(shape or ())
@@ -493,6 +493,12 @@ def programs(draw, n_inputs=(1, 2), max_len=8, families=None, out='any', K=4, in
             shape = tuple(draw(st.integers(1 if rank < 2 else 2, max_side)) for _ in range(rank))
         if i > 0 and draw(st.booleans()):
             shape = pts[0].shape[1:]
+            v = draw(st.integers(0, 3))
+            if v == 1 and len(shape) >= 1:
+                shape = shape[1:]
+            elif v == 2 and len(shape) >= 1:
+                k = draw(st.integers(0, len(shape) - 1))
+                shape = tuple(1 if j == k else n for j, n in enumerate(shape))
         p = draw(gen.float_array((K,) + shape, st.one_of(gen.nice_floats(-2.0, 2.0), gen.dyadic_elements(8, 4)), sparse=False))
         pts.append(p)
     S = GenState(pts)
@@ -563,6 +569,14 @@ def _special_input(draw, first, K, max_side):
     return draw(gen.float_array((K,) + shape, elems, sparse=False))
 
 
+def compat_shape(S, a, r):
+    try:
+        np.broadcast_shapes(S.shape(a), S.shape(r))
+        return True
+    except ValueError:
+        return False
+
+
 def _pick(draw, S, pred):
     c = [r for r in range(S.nreg()) if pred(r)]
     if not c:
@@ -602,16 +616,66 @@ def _emit_family(draw, S, fam, allow_set_broadcast=True, allow_ndim_dot=False, a
         return S.try_emit(['unp', which, params, a])
     if fam == 'bin':
         a = _pick(draw, S, lambda r: True)
-        opn = draw(st.sampled_from(['add', 'sub', 'mul', 'mul'] + ([] if poly else ['div'])))
+        opn = draw(st.sampled_from(['add', 'sub', 'mul', 'mul'] + ([] if poly else ['div', 'div'])))
 
         def compat(r):
             try:
                 np.broadcast_shapes(S.shape(a), S.shape(r))
-                return True
             except ValueError:
                 return False
-        b = _pick(draw, S, compat)
+            if opn == 'div':
+                return all(precond(['bin', 'div', a, r], S.regs[k]) for k in range(S.K))
+            return True
+        want_bcast = draw(st.booleans())
+        b = None
+        if want_bcast:
+            b = _pick(draw, S, lambda r: compat(r) and S.shape(r) != S.shape(a))
+        if b is None:
+            b = _pick(draw, S, compat)
+        if b is None and opn == 'div':
+            # make an admissible denominator: 0.5 + square(reg)
+            c = _pick(draw, S, lambda r: real(r) and compat_shape(S, a, r))
+            if c is None or not S.try_emit(['un', 'square', c]) or not S.try_emit(['binc', 'add', S.nreg() - 1, 0.5, 'r']):
+                return False
+            b = S.nreg() - 1
+        if b is None:
+            return False
+        if draw(st.booleans()):
+            a, b = (b, a) if opn != 'div' else (a, b)
         return S.try_emit(['bin', opn, a, b])
+    if fam == 'bcast':
+        # an operand that must be broadcast against its source: keepdims-style reductions and size-1 slices
+        a = _pick(draw, S, lambda r: S.ndim(r) >= 1 and real(r))
+        if a is None:
+            return False
+        nd = S.ndim(a)
+        shp = S.shape(a)
+        form = draw(st.integers(0, 2))
+        if form == 0:
+            ax = draw(st.integers(0, nd - 1))
+            if not S.try_emit(['sum', a, ax]):
+                return False
+            new = list(shp)
+            new[ax] = 1
+            if nd > 1 and not S.try_emit(['reshape', S.nreg() - 1, tuple(new)]):
+                return False
+        elif form == 1:
+            ax = draw(st.integers(0, nd - 1))
+            idx = tuple(slice(0, 1) if k == ax else slice(None) for k in range(nd))
+            if not S.try_emit(['get', a, idx]):
+                return False
+        else:
+            if not S.try_emit(['get', a, (0,) * 1]):
+                return False
+        b = S.nreg() - 1
+        opn = draw(st.sampled_from(['add', 'sub', 'mul'] + ([] if poly else ['div', 'div'])))
+        order = draw(st.booleans())
+        x, y = (a, b) if order else (b, a)
+        if opn == 'div' and not all(precond(['bin', 'div', x, y], S.regs[k]) for k in range(S.K)):
+            if not S.try_emit(['un', 'square', y]) or not S.try_emit(['binc', 'add', S.nreg() - 1, 0.5, 'r']):
+                return False
+            y = S.nreg() - 1
+        return S.try_emit(['bin', opn, x, y])
     if fam == 'binc':
         a = _pick(draw, S, real)
         if a is None:
@@ -975,8 +1039,12 @@ def features(case):
                 readroots.add(root[ins[1]])
         if op in ('get', 'T') and ins[1] in root:
             root[reg] = root[ins[1]]
+        if op == 'bin':
+            f.add('bin:' + ins[1])
         if op == 'binc':
             f.add('const-left' if ins[4] == 'l' else 'const-right')
+            if isinstance(ins[3], (int, float)) and not isinstance(ins[3], bool) and ins[3] in (0, 1):
+                f.add('const-neutral')
             if isinstance(ins[3], np.ndarray):
                 f.add('const-ndarray')
         if op == 'pow':
